@@ -249,6 +249,17 @@ func checkC06(c *Check) {
 					}
 					tv := info.Types[kv.Value]
 					if tv.Value == nil {
+						// a verdict held in a local that is a constant on every path (decided on the graph)
+						if vals, allConst := litResultConsts(c, fs, x.Pos()); allConst && len(vals) > 0 {
+							for _, v := range vals {
+								if v == resOK || v == resNonRevokable {
+									ngood++
+									_, ok := covered[x.Pos()]
+									c.add("O-C06.1", fmt.Sprintf("good verdict literal is a guarded site (%s)", strings.TrimPrefix(rel, "/")), "every literal that carries OK or NonRevokable is one of the sites whose guards are proven", ok, c.P.pos(x.Pos()))
+								}
+							}
+							continue
+						}
 						// non-constant verdict: only the OCSP aggregate form X[len(X)-1].Result
 						c.add("O-C06.1", "non-constant verdict is the OCSP aggregate's", "a verdict that is not a constant is the last server result's verdict of the same list (whose entries are all Unknown, C04/C12)", isLastElemResult(kv.Value), c.P.pos(kv.Value.Pos()))
 						continue
@@ -462,4 +473,50 @@ func fetcherDeltaRules(c *Check) {
 	c.Searches += sub.Searches
 	c.States += sub.States
 	c.floor("fetcher delta-CRL rules (shared with C18)", 8, n)
+}
+
+// litResultConsts resolves the Result field of the verdict literal at pos on
+// the graph of its function: the distinct constant values it takes, and
+// whether it is a constant in every product state that builds the literal.
+func litResultConsts(c *Check, fs *FuncSrc, pos token.Pos) (vals []int64, allConst bool) {
+	pg := c.quietFull(fs)
+	if pg == nil || pg.Trunc {
+		return nil, false
+	}
+	seen := map[int64]bool{}
+	allConst = true
+	n := 0
+	visit := func(t *Term) {
+		if t == nil {
+			return
+		}
+		t.walk(func(x *Term) {
+			if x.Op != "struct" || x.Pos != pos {
+				return
+			}
+			n++
+			r := structGet(x, "Result")
+			if k, ok := intConst(r); ok {
+				seen[k] = true
+			} else {
+				allConst = false
+			}
+		})
+	}
+	for _, s := range pg.States {
+		for _, v := range s.Ret {
+			visit(v.T)
+		}
+		for _, e := range s.Out {
+			for _, l := range e.Labels {
+				if l.Kind == "store" || l.Kind == "lstore" || l.Kind == "assign" {
+					visit(l.T2)
+				}
+			}
+		}
+	}
+	for k := range seen {
+		vals = append(vals, k)
+	}
+	return vals, allConst && n > 0
 }
